@@ -60,6 +60,16 @@ def generate(rng, tier):
         e, t = MG.schema_pair(rng) if hasattr(MG, "schema_pair") else (rng.choice(objs or docs), rng.choice(objs or docs))
         cases.append({"lines": [f"schema-copy {rng.choice(['track', 'track', 'simple'])} " + G.hx(e) + " " + G.hx(t)], "cls": "schema-copy", "kind": "schema",
                       "ntexts": 1, "nontrivial": True})
+    # ParseSchema, then document swap with the donor destroyed / the same document object parsed and updated again
+    for _ in range(150 if quick else 10000):
+        e, t = MG.schema_pair(rng)
+        cases.append({"lines": [f"{rng.choice(['schema-swap', 'schema-reparse'])} {rng.choice(['track', 'simple', 'simple'])} " + G.hx(e) + " " + G.hx(t)],
+                      "cls": "schema-swap/reparse", "kind": "schema", "ntexts": 1, "nontrivial": True})
+    for e, t in [(b'{"tags":[1],"meta":{},"s":"v"}', b'{"tags":["alpha","beta","gamma"],"meta":{"k":"vvvvvvvvvvvvvvvv"},"s":"w"}'),
+                 (b'{"a":{"b":"x"}}', b'{"a":{"b":"a longer string value here"}}')]:
+        for cmd in ("schema-swap", "schema-reparse"):
+            for alloc in ("track", "simple", "pool"):
+                cases.append({"lines": [f"{cmd} {alloc} " + G.hx(e) + " " + G.hx(t)], "cls": "schema-swap/reparse", "kind": "schema", "ntexts": 1, "nontrivial": True})
     # ParseSchema over objects that were emptied through the API and still own a children block / capacity / lookup map
     for _ in range(150 if quick else 10000):
         e, t = MG.schema_pair(rng)
